@@ -52,6 +52,9 @@ theorem answer_accepted_iff (t : Int) (ht : t ≠ 0) (expired : Bool) :
 theorem ttl_field_nonzero (ttl t rem : Int) (ht : t ≠ 0) : Outgoing.ttl_field ttl t rem = rem := by
   simp [Outgoing.ttl_field, ht]
 
+/-- the clean-up tick expires the history at the current time -/
+theorem cleanup_expire_time_eq (now : Int) : History.cleanup_expire_time now = now := rfl
+
 theorem listenerTime_eq : listenerTime = 200 := rfl
 theorem duplicateQuestionInterval_eq : duplicateQuestionInterval = 999 := rfl
 theorem avoidSync_eq : avoidSyncDelayRandomInterval = [20, 120] := rfl
